@@ -780,7 +780,9 @@ def judge_subfaces(site, parent, subs, ratio=None, short_allow=0.0, args_desc=''
         # in the parent plane
         for p, ip in zip(pts, ipts):
             dist = dot(nf, sub(ip, of))
-            if abs(dist) > tau * F(1000001, 1000000):
+            # (the rectangle methods build corners from edges that are horizontal only within
+            # `tolerance`: up to that far off the plane is inside their stated precision)
+            if abs(dist) > tau * F(1000001, 1000000) + F(excess_tol) * D:
                 bad.append(('plane', '%s: vertex %r of sub-face %d is %.3g off the parent plane'
                             % (head, p, si, float(dist) / D)))
                 break
